@@ -50,6 +50,54 @@ pub fn vx_arr_eq_slice(a: &[u8; 32], b: &[u8]) -> (r: bool)
 //@sub /hmac (!)?==? expected_hmac\.as_slice\(\)/ => \1vx_arr_eq_slice(&hmac, expected_hmac.as_slice())
 //@end
 
+// ChaCha20 keyed by the secret with a nonce derived from (key, version): XOR with a keystream, hence its own inverse
+// and length preserving (crate feature `crypt`, on by default; assumed)
+pub uninterp spec fn crypt_spec(secret: Seq<u8>, key: Seq<char>, version: i64, v: Seq<u8>) -> Seq<u8>;
+#[verifier::external_body]
+pub proof fn axiom_crypt_involution(secret: Seq<u8>, key: Seq<char>, version: i64, v: Seq<u8>) ensures crypt_spec(secret, key, version, crypt_spec(secret, key, version, v)) == v, crypt_spec(secret, key, version, v).len() == v.len() {}
+#[verifier::external_body]
+pub fn vx_crypt_value(secret: &[u8], key: &str, version: i64, value: &mut Vec<u8>)
+    ensures final(value)@ == crypt_spec(secret@, key@, version, old(value)@)
+{ unimplemented!() }
+// what is stored for (key, version, content): the content followed by its MAC, encrypted
+pub open spec fn stored_form(secret: Seq<u8>, key: Seq<char>, version: i64, content: Seq<u8>) -> Seq<u8> {
+    crypt_spec(secret, key, version, content + hmac_sha256(secret, rec_bytes(lss_rec(key, version, content))))
+}
+
+//@fn lightning-storage-server/lib/src/util.rs :: - :: prepare_value_for_put props=C17
+    ensures
+        final(value).version == old(value).version,
+        final(value).value@ == stored_form(secret@, key@, old(value).version, old(value).value@),            //[C17.lss-put.value-is-content-then-tag-encrypted]
+//@sub /crypt_value\(secret, key, value\.version, &mut value\.value\);/ => vx_crypt_value(secret, key, value.version, &mut value.value);
+//@end
+
+//@fn lightning-storage-server/lib/src/util.rs :: - :: process_value_from_get props=C17
+    ensures
+        final(value).version == old(value).version,
+        // a fetched value is accepted only if, once decrypted, it ends in the MAC of exactly this key, version and content
+        r.is_ok() ==> ({
+            let plain = crypt_spec(secret@, key@, old(value).version, old(value).value@);
+            plain.len() >= 32 && final(value).value@ == plain.take(plain.len() - 32)
+            && plain.skip(plain.len() - 32) == hmac_sha256(secret@, rec_bytes(lss_rec(key@, old(value).version, final(value).value@))) }),   //[C17.lss-get.accepts-only-matching-tag]
+//@sub /crypt_value\(secret, key, value\.version, &mut value\.value\);/ => vx_crypt_value(secret, key, value.version, &mut value.value);
+//@end
+
+// C17 for the stored form: what prepare_value_for_put produced is accepted by process_value_from_get's check and yields the
+// content back (HMAC-SHA256 output is 32 bytes: assumed)
+pub proof fn c17_stored_value_roundtrip(secret: Seq<u8>, key: Seq<char>, version: i64, content: Seq<u8>)
+    requires hmac_sha256(secret, rec_bytes(lss_rec(key, version, content))).len() == 32
+    ensures ({
+        let plain = crypt_spec(secret, key, version, stored_form(secret, key, version, content));
+        plain.len() >= 32 && plain.take(plain.len() - 32) == content
+        && plain.skip(plain.len() - 32) == hmac_sha256(secret, rec_bytes(lss_rec(key, version, content))) })
+{
+    let tag = hmac_sha256(secret, rec_bytes(lss_rec(key, version, content)));
+    axiom_crypt_involution(secret, key, version, content + tag);
+    let plain = content + tag;
+    assert(plain.take(plain.len() - 32) =~= content);
+    assert(plain.skip(plain.len() - 32) =~= tag);
+}
+
 //@fn lightning-storage-server/lib/src/util.rs :: - :: compute_shared_hmac props=C17
     ensures r@ == hmac_sha256(secret@, framing(secret@, nonce@, lss_recs_of(kvs@))),              //[C17.lss-shared-hmac.framing-shape?]
 //@sub /for \(key, value\) in kvs/ => for vx_e in kvs
